@@ -19,3 +19,14 @@ func init() {
 		return 0
 	}
 }
+
+func init() {
+	checks["debug08"] = func(tier string) int {
+		var j c08Job
+		json.Unmarshal([]byte(os.Getenv("JOB")), &j)
+		rep := c08Run(j)
+		b, _ := json.MarshalIndent(rep, "", " ")
+		fmt.Println(string(b))
+		return 0
+	}
+}
